@@ -3,22 +3,29 @@
 A `Run` executes a scenario (a few thread programs sharing one object of the
 library) under a schedule = sequence of thread ids:
 
-* every scheduled thread installs a sys.settrace hook; 'line' events of code
+* every scheduled thread runs with a sys.settrace hook; 'line' events of code
   objects whose file is one of the target files (sessioncache.py,
-  python_rsakey.py, basedb.py, ...) park the thread on its own semaphore
-  BEFORE the line executes; the controller (the calling thread) then wakes
-  exactly one thread - so only one thread ever runs, and every source line
-  of the code under test is a possible switch point;
+  python_rsakey.py, basedb.py) are switch points: BEFORE the line executes the
+  thread asks the schedule who runs next and, if it is somebody else, wakes
+  that thread and parks on its own semaphore - so exactly one thread runs at
+  any time and every source line of the code under test is a possible switch
+  point (the decision is taken by the parking thread itself, so continuing the
+  same thread costs no hand-off; worker threads are persistent);
 * the lock attribute of the shared object is replaced by a CoopLock that
   reports acquire / release to the scheduler; a thread that finds the lock
-  taken is marked blocked (not enabled) instead of blocking the process;
+  taken is marked blocked (not enabled) instead of blocking the process (a
+  real lock would deadlock a one-thread-at-a-time scheduler);
 * thread programs are lists of operations; the boundary before each
-  operation is a switch point that costs no preemption.
+  operation is a switch point that costs no preemption;
+* deadlock (nobody enabled, somebody not done) and runaway loops (step limit)
+  end the run with outcome "deadlock" / "steps"; parked threads are unwound.
 
-Exploration (`explore`): stateless DFS over the real code, bounded by the
-number of preemptions (switching away from a thread that could have
-continued in the middle of an operation); `random_runs`: seeded random
-schedules; `stress`: no instrumentation, real locks.
+`explore`: stateless bounded-preemption DFS over the real code (preemption =
+switching away from a thread parked at a line that could have continued);
+schedules with fewer preemptions are executed first; a state cache (event
+history + code position and locals of every thread + digest of the shared
+object) cuts continuations that were expanded before with no more preemptions.
+`RandomChooser`: seeded random schedules.
 
 The scheduler records events (dicts) in real-time order; it decides nothing.
 """
